@@ -18,8 +18,12 @@ def init_common(prod, empty_env=True):
         cs += [p[f'x{i}'] == 0, p[f'kind{i}'] >= 0, p[f'kind{i}'] < 7]
         if empty_env:
             cs.append(z3.Not(p[f'p{i}']))
-            for f in prod.schema.fields:
+            for f in prod.schema.fields_of(i):
                 cs.append(z3.Not(p[f'h{i}_{f}']))
+    for i in range(cfg.n, len(prod.schema.tasks)):          # extra (non-task) entries start absent
+        cs.append(z3.Not(p[f'p{i}']))
+        for f in prod.schema.fields_of(i):
+            cs.append(z3.Not(p[f'h{i}_{f}']))
     return z3.And(*cs)
 
 
@@ -43,8 +47,12 @@ def c01_ok(prod, i, pre):
     for j in deps_of(prod.cfg, i):
         st = pre[f'v{j}_status']
         final = z3.And(pre[f'p{j}'], pre[f'h{j}_status'], z3.Or(st == DONE, st == FAILED, st == SKIPPED))
-        published = z3.Implies(z3.And(st == DONE, pre[f'kind{j}'] == 0),
-                               z3.And(pre[f'h{j}_result'], pre[f'v{j}_result'] == payload_code(prod, j)))
+        pub = [pre[f'h{j}_result'], pre[f'v{j}_result'] == payload_code(prod, j)]
+        if prod.cfg.shared:             # ... and its part of the shared key
+            n = prod.cfg.n
+            nm = prod.cfg.names[j]
+            pub += [pre[f'p{n}'], pre[f'h{n}_{nm}'], pre[f'v{n}_{nm}'] == payload_code(prod, j)]
+        published = z3.Implies(z3.And(st == DONE, pre[f'kind{j}'] == 0), z3.And(*pub))
         cs.append(z3.And(final, published))
     return z3.And(*cs) if cs else z3.BoolVal(True)
 
